@@ -9,6 +9,7 @@ use std::collections::vec_deque::{Iter, VecDeque};
 use std::collections::{HashMap, HashSet};
 use std::convert::{From, TryFrom, TryInto};
 use vstd::std_specs::iter::IteratorSpec;
+use vstd::std_specs::hash::*;
 verus! {
 global size_of usize == 8;
 //@@ define STUB_CSM
@@ -42,24 +43,82 @@ impl FramedIo {
 //@ end
 
 // ---- the topic set -------------------------------------------------------------------------------------------
-/// the socket's subscription set as a set of octet strings (the octets of each String)
-pub uninterp spec fn topic_set(h: HashSet<String>) -> Set<Seq<u8>>;
-/// D5 (expression): `self.backend.subs.lock().insert(subscription.to_string())`.  ASSUMED (std HashSet<String>,
-/// String: Borrow<str>, to_string copies the characters): the topic joins the set; true iff it was not in it.
-#[verifier::external_body]
-fn assumed_subs_insert(subs: &mut Mutex<HashSet<String>>, t: &str) -> (r: bool)
-    ensures
-        topic_set(final(subs).inner) == topic_set(old(subs).inner).insert(str_bytes(t)),
-        r == !topic_set(old(subs).inner).contains(str_bytes(t)),
-{ unimplemented!() }
-/// D5 (expression): `self.backend.subs.lock().remove(subscription)`.  ASSUMED: the topic leaves the set; true iff it
-/// was in it.
-#[verifier::external_body]
-fn assumed_subs_remove(subs: &mut Mutex<HashSet<String>>, t: &str) -> (r: bool)
-    ensures
-        topic_set(final(subs).inner) == topic_set(old(subs).inner).remove(str_bytes(t)),
-        r == topic_set(old(subs).inner).contains(str_bytes(t)),
-{ unimplemented!() }
+// The socket keeps a std `HashSet<String>`; vstd's HashSet specifications are used for `insert` / `remove`.
+// ASSUMED (axioms below; vstd has key-model axioms for integer and Box keys only): String is a well-behaved hash key,
+// two Strings with the same characters are equal, `&str` borrows a String by content, the octets of a str are the
+// UTF-8 encoding of its characters, and that encoding is injective.
+pub uninterp spec fn utf8(s: Seq<char>) -> Seq<u8>;
+pub uninterp spec fn string_of(v: Seq<char>) -> String;
+pub mod string_set_axioms {
+use super::*;
+pub broadcast axiom fn axiom_string_obeys_key_model()
+    ensures #[trigger] obeys_key_model::<String>();
+pub broadcast axiom fn axiom_string_eq_by_view(a: String, b: String)
+    ensures #[trigger] a@ == #[trigger] b@ ==> a == b;
+pub broadcast axiom fn axiom_string_of(v: Seq<char>)
+    ensures (#[trigger] string_of(v))@ == v;
+pub broadcast axiom fn axiom_str_bytes_utf8(s: &str)
+    ensures #[trigger] str_bytes(s) == utf8(s@);
+pub broadcast axiom fn axiom_utf8_injective(a: Seq<char>, b: Seq<char>)
+    ensures #[trigger] utf8(a) == #[trigger] utf8(b) ==> a == b;
+pub broadcast axiom fn axiom_str_set_contains(s: Set<String>, k: &str)
+    ensures #[trigger] set_contains_borrowed_key::<String, str>(s, k) == s.contains(string_of(k@));
+pub broadcast axiom fn axiom_str_set_differ(s0: Set<String>, s1: Set<String>, k: &str)
+    ensures #[trigger] sets_differ_by_borrowed_key::<String, str>(s0, s1, k) == (s1 == s0.remove(string_of(k@)));
+pub broadcast group group_string_set {
+    axiom_string_obeys_key_model, axiom_string_eq_by_view, axiom_string_of, axiom_str_bytes_utf8, axiom_utf8_injective,
+    axiom_str_set_contains, axiom_str_set_differ,
+}
+}
+/// the socket's subscription set as a set of octet strings (the UTF-8 octets of each String)
+pub open spec fn topics_of_set(s: Set<String>) -> Set<Seq<u8>> {
+    s.map(|x: String| utf8(x@))
+}
+pub open spec fn topic_set(h: HashSet<String>) -> Set<Seq<u8>> { topics_of_set(h@) }
+pub broadcast proof fn lemma_topics_insert(s: Set<String>, k: String)
+    ensures #[trigger] topics_of_set(s.insert(k)) == topics_of_set(s).insert(utf8(k@)),
+{
+    assert forall|b: Seq<u8>| topics_of_set(s.insert(k)).contains(b) <==> topics_of_set(s).insert(utf8(k@)).contains(b) by {
+        if topics_of_set(s.insert(k)).contains(b) {
+            let x = choose|x: String| #[trigger] s.insert(k).contains(x) && utf8(x@) == b;
+            if x != k { assert(s.contains(x)); }
+        }
+        if topics_of_set(s).contains(b) {
+            let x = choose|x: String| #[trigger] s.contains(x) && utf8(x@) == b;
+            assert(s.insert(k).contains(x));
+        }
+        if b == utf8(k@) { assert(s.insert(k).contains(k)); }
+    }
+    assert(topics_of_set(s.insert(k)) =~= topics_of_set(s).insert(utf8(k@)));
+}
+pub broadcast proof fn lemma_topics_remove(s: Set<String>, k: String)
+    ensures #[trigger] topics_of_set(s.remove(k)) == topics_of_set(s).remove(utf8(k@)),
+{
+    broadcast use string_set_axioms::group_string_set;
+    assert forall|b: Seq<u8>| topics_of_set(s.remove(k)).contains(b) <==> topics_of_set(s).remove(utf8(k@)).contains(b) by {
+        if topics_of_set(s.remove(k)).contains(b) {
+            let x = choose|x: String| #[trigger] s.remove(k).contains(x) && utf8(x@) == b;
+            assert(s.contains(x));
+            if b == utf8(k@) { assert(x@ == k@); assert(x == k); }
+        }
+        if topics_of_set(s).contains(b) && b != utf8(k@) {
+            let x = choose|x: String| #[trigger] s.contains(x) && utf8(x@) == b;
+            assert(s.remove(k).contains(x));
+        }
+    }
+    assert(topics_of_set(s.remove(k)) =~= topics_of_set(s).remove(utf8(k@)));
+}
+pub broadcast proof fn lemma_topics_member(s: Set<String>, k: String)
+    ensures #[trigger] topics_of_set(s).contains(utf8(k@)) == s.contains(k),
+{
+    broadcast use string_set_axioms::group_string_set;
+    if topics_of_set(s).contains(utf8(k@)) {
+        let x = choose|x: String| #[trigger] s.contains(x) && utf8(x@) == utf8(k@);
+        assert(x@ == k@); assert(x == k);
+    }
+    if s.contains(k) { assert(topics_of_set(s).contains(utf8(k@))); }
+}
+pub broadcast group group_topics { lemma_topics_insert, lemma_topics_remove, lemma_topics_member }
 
 // ---- RFC 29 subscription messages and what a connection has been told ---------------------------------------------
 pub open spec fn tag_of(ty: SubBackendMsgType) -> u8 { if ty is SUBSCRIBE { 1u8 } else { 0u8 } }
@@ -264,6 +323,9 @@ pub closed spec fn told_or_failed(p0: Peer, p1: Peer, tag: u8, t: Seq<u8>) -> bo
 
 impl SubSocket {
 //@ item src/sub.rs :: impl SubSocket / fn process_subs
+// two forms are read: the repaired one (first error kept in `result`, traversal carries on) and the defective one
+// (`?` inside the traversal: F7) - so that a returning F7 is reported; any other restructuring is undecided
+//@ shapes "let mut result" ".await?;"
 //@ ret r
 //@ spec
 //@|        ensures
@@ -287,12 +349,12 @@ impl SubSocket {
 //@|                iter matches Some(e) ==> e.wf() && final(e.map)@ == tfv && e.map@.dom() =~= t0.dom()
 //@|                    && (forall|j: int| e.idx@ <= j < e.order@.len() ==> e.map@[e.order@[j]] == t0[e.order@[j]])
 //@|                    && (forall|j: int| 0 <= j < e.idx@ ==> told_or_failed(t0[e.order@[j]], #[trigger] e.map@[e.order@[j]], tag, tb))
-//@|?[let mut result]                    && (result is Ok ==> forall|j: int| 0 <= j < e.idx@ ==> announced(t0[e.order@[j]].send_queue, (#[trigger] e.map@[e.order@[j]]).send_queue, tag, tb)),
-//@|?![let mut result]                    && (forall|j: int| 0 <= j < e.idx@ ==> announced(t0[e.order@[j]].send_queue, (#[trigger] e.map@[e.order@[j]]).send_queue, tag, tb)),
+//@|?![.await?;]                    && (result is Ok ==> forall|j: int| 0 <= j < e.idx@ ==> announced(t0[e.order@[j]].send_queue, (#[trigger] e.map@[e.order@[j]]).send_queue, tag, tb)),
+//@|?[.await?;]                    && (forall|j: int| 0 <= j < e.idx@ ==> announced(t0[e.order@[j]].send_queue, (#[trigger] e.map@[e.order@[j]]).send_queue, tag, tb)),
 //@|                iter is None ==> tfv.dom() =~= t0.dom()
 //@|                    && (forall|k: PeerIdentity| t0.contains_key(k) ==> told_or_failed(t0[k], #[trigger] tfv[k], tag, tb))
-//@|?[let mut result]                    && (result is Ok ==> forall|k: PeerIdentity| t0.contains_key(k) ==> announced(t0[k].send_queue, (#[trigger] tfv[k]).send_queue, tag, tb)),
-//@|?![let mut result]                    && (forall|k: PeerIdentity| t0.contains_key(k) ==> announced(t0[k].send_queue, (#[trigger] tfv[k]).send_queue, tag, tb)),
+//@|?![.await?;]                    && (result is Ok ==> forall|k: PeerIdentity| t0.contains_key(k) ==> announced(t0[k].send_queue, (#[trigger] tfv[k]).send_queue, tag, tb)),
+//@|?[.await?;]                    && (forall|k: PeerIdentity| t0.contains_key(k) ==> announced(t0[k].send_queue, (#[trigger] tfv[k]).send_queue, tag, tb)),
 //@|                message.fr().len() == 1, b_view(&message.fr()[0]) == seq![tag] + tb,
 //@|                tag == tag_of(msg_type), tb == str_bytes(subscription), t0 == old(self).backend.peers@,
 //@|            ensures
@@ -321,18 +383,18 @@ impl SubSocket {
 //@|                assert forall|j: int| 0 <= j <= e0.idx@ implies told_or_failed(t0[e0.order@[j]], #[trigger] e1.map@[e0.order@[j]], tag, tb) by {
 //@|                    if j == e0.idx@ { assert(e1.map@[e0.order@[j]] == e1.val()); } else { assert(e1.map@[e0.order@[j]] == e0.map@[e0.order@[j]]); }
 //@|                }
-//@|?![let mut result]                assert forall|j: int| 0 <= j <= e0.idx@ implies announced(t0[e0.order@[j]].send_queue, (#[trigger] e1.map@[e0.order@[j]]).send_queue, tag, tb) by {
-//@|?[let mut result]                assert forall|j: int| 0 <= j <= e0.idx@ && result is Ok implies announced(t0[e0.order@[j]].send_queue, (#[trigger] e1.map@[e0.order@[j]]).send_queue, tag, tb) by {
+//@|?[.await?;]                assert forall|j: int| 0 <= j <= e0.idx@ implies announced(t0[e0.order@[j]].send_queue, (#[trigger] e1.map@[e0.order@[j]]).send_queue, tag, tb) by {
+//@|?![.await?;]                assert forall|j: int| 0 <= j <= e0.idx@ && result is Ok implies announced(t0[e0.order@[j]].send_queue, (#[trigger] e1.map@[e0.order@[j]]).send_queue, tag, tb) by {
 //@|                    if j == e0.idx@ { assert(e1.map@[e0.order@[j]] == e1.val()); } else { assert(e1.map@[e0.order@[j]] == e0.map@[e0.order@[j]]); }
 //@|                }
 //@|                assert forall|j: int| e0.idx@ < j < e0.order@.len() implies #[trigger] e1.map@[e0.order@[j]] == t0[e0.order@[j]] by {
 //@|                    assert(e1.map@[e0.order@[j]] == e0.map@[e0.order@[j]]);
 //@|                }
 //@|                if iter is None {
-//@|?![let mut result]                    assert forall|k: PeerIdentity| t0.contains_key(k) implies told_or_failed(t0[k], #[trigger] tfv[k], tag, tb)
-//@|?![let mut result]                        && announced(t0[k].send_queue, tfv[k].send_queue, tag, tb) by {
-//@|?[let mut result]                    assert forall|k: PeerIdentity| t0.contains_key(k) implies told_or_failed(t0[k], #[trigger] tfv[k], tag, tb)
-//@|?[let mut result]                        && (result is Ok ==> announced(t0[k].send_queue, tfv[k].send_queue, tag, tb)) by {
+//@|?[.await?;]                    assert forall|k: PeerIdentity| t0.contains_key(k) implies told_or_failed(t0[k], #[trigger] tfv[k], tag, tb)
+//@|?[.await?;]                        && announced(t0[k].send_queue, tfv[k].send_queue, tag, tb) by {
+//@|?![.await?;]                    assert forall|k: PeerIdentity| t0.contains_key(k) implies told_or_failed(t0[k], #[trigger] tfv[k], tag, tb)
+//@|?![.await?;]                        && (result is Ok ==> announced(t0[k].send_queue, tfv[k].send_queue, tag, tb)) by {
 //@|                        assert(e1.order@.contains(k));
 //@|                        let j = choose|j: int| 0 <= j < e1.order@.len() && e1.order@[j] == k;
 //@|                        assert(e1.map@[e1.order@[j]] == tfv[k]);
@@ -347,8 +409,6 @@ impl SubSocket {
 impl SubSocket {
 //@ item src/sub.rs :: impl SubSocket / fn subscribe
 //@ drop-pub
-//@ subst "self.backend.subs.lock().insert(subscription.to_string())"
-//@|    assumed_subs_insert(&mut self.backend.subs, subscription)
 //@ ret r
 //@ spec
 //@|        ensures
@@ -362,11 +422,12 @@ impl SubSocket {
 //@|                told_or_failed(old(self).backend.peers@[k], #[trigger] final(self).backend.peers@[k], 1u8, str_bytes(subscription)),
 //@ hint start
 //@|        broadcast use lemma_announced_told;
+//@|        broadcast use string_set_axioms::group_string_set;
+//@|        broadcast use group_topics;
+//@|        broadcast use vstd::std_specs::hash::group_hash_axioms;
 //@ end
 //@ item src/sub.rs :: impl SubSocket / fn unsubscribe
 //@ drop-pub
-//@ subst "self.backend.subs.lock().remove(subscription)"
-//@|    assumed_subs_remove(&mut self.backend.subs, subscription)
 //@ ret r
 //@ spec
 //@|        ensures
@@ -377,6 +438,9 @@ impl SubSocket {
 //@|                told_or_failed(old(self).backend.peers@[k], #[trigger] final(self).backend.peers@[k], 0u8, str_bytes(subscription)),
 //@ hint start
 //@|        broadcast use lemma_announced_told;
+//@|        broadcast use string_set_axioms::group_string_set;
+//@|        broadcast use group_topics;
+//@|        broadcast use vstd::std_specs::hash::group_hash_axioms;
 //@ end
 }
 
